@@ -183,7 +183,7 @@ fn cache_any_family(n: usize, symbolic_keys: bool) -> Run {
 macro_rules! c20_harness {
     ( fn $name:ident() $body:block ) => {
         harness! {
-            #[kani::unwind(17)]
+            #[kani::unwind(5)]
             #[kani::stub(<std::hash::DefaultHasher as std::hash::Hasher>::finish, crate::common::hasher_finish_model)]
             fn $name() $body
         }
